@@ -461,6 +461,10 @@ func (bva *BaseLockup) checkSender(ctx context.Context, sender string) error {
 	if !bytes.Equal(owner, senderBytes) {
 		return errors.New("sender is not the owner of this vesting account")
 	}
+	// msg.Sender is a field chosen by whoever submits MsgExecute: it must also be the actual caller
+	if !bytes.Equal(accountstd.Sender(ctx), senderBytes) {
+		return errors.New("sender is not the caller of this message")
+	}
 
 	return nil
 }
